@@ -13,7 +13,7 @@ EXPLANATION = ("Necessary shape conditions decided on all paths of the five chan
                "ref<->index conversions are inverse maps over element 0 of their own buffer; (R08.3) the lap reconstruction of the index-based publish / cancel is wrap-safe "
                "(dimension rules shared with C15) and the publication CAS is >= Release; (R08.4) capacity accounting: the rings' fullness guard counts reserved-but-unpublished "
                "slots on a wrapping distance and the counters move only through the protocol shapes (shared with C02), so after every slot was sent or cancelled exactly "
-               "BUFFER_SIZE can be outstanding again.")
+               "BUFFER_SIZE can be outstanding again. (R08.5) the Uni's reserve_slot / try_send_reserved / try_cancel_slot_reserve forward to the same-named channel method unchanged.")
 ASSUMPTIONS = ["the exhaustive history clause ('after any sequence ... accepts exactly BUFFER_SIZE again') is a behavioural statement; decided here are the shape conditions it stands on",
                "payload types without destructor (property's own restriction)"]
 
@@ -135,4 +135,9 @@ def check(ctx):
             if rule in ("R02.1", "R02.2"): return super().ob(rule, key, ok, site, detail, nontrivial, undecided)
             return ok
     C02.check(Cap(ctx, "R08.4"))
+    # ------------------------------------------------------------------ R08.5 the Uni reservation API forwards to its channel unchanged
+    import delegation
+    for fn in ("reserve_slot", "try_send_reserved", "try_cancel_slot_reserve"):
+        delegation.thin(ctx, "R08.5", "uni::uni::Uni as uni::uni::GenericUni::" + fn, fn, "a swapped or re-answered forwarder sends what should be cancelled")
+    ctx.floor("R08.5", 3)
     ctx.floor("R08.1", 35); ctx.floor("R08.2", 4); ctx.floor("R08.3", 6 if ctx.config == "lib" else 2); ctx.floor("R08.4", 14)
